@@ -115,3 +115,37 @@ Proof.
     rewrite Hn, Nat.sub_diag, skipn_all. reflexivity.
 Qed.
 Print Assumptions C19_dot.
+
+(* the answer is the shortest one: it climbs exactly out of the part of the base directory that the target does not share, and the
+   shared prefix is maximal -- the first component after the climbs is not one the base directory has at that depth *)
+Lemma common_prefix_maximal a b : let n := common_prefix_len a b in
+  n = length a \/ n = length b \/ nth_error a n <> nth_error b n.
+Proof.
+  revert b. induction a as [|x a IH]; intros b; cbn [common_prefix_len]; [left; reflexivity|].
+  destruct b as [|y b]; [right; left; reflexivity|].
+  destruct (bytes_eqb x y) eqn:E.
+  - destruct (IH b) as [H|[H|H]]; cbn [length nth_error]; [left; lia|right; left; lia|right; right; exact H].
+  - right. right. cbn [nth_error]. intros Heq. inversion Heq as [Hxy]. subst y.
+    assert (bytes_eqb x x = true) as Hr by (clear; induction x as [|c x IHx]; cbn; [reflexivity|rewrite Z.eqb_refl, IHx; reflexivity]).
+    rewrite Hr in E. discriminate.
+Qed.
+Theorem C19_shortest base target :
+  Forall ordinary (components target) -> Forall ordinary (components base) ->
+  let tp := components target in let bp := pop_last (components base) in
+  make_relative_path base target <> [46] ->
+  exists n, (n <= length tp)%nat /\ (n <= length bp)%nat /\ firstn n tp = firstn n bp
+    /\ (n = length tp \/ n = length bp \/ nth_error tp n <> nth_error bp n)
+    /\ components (make_relative_path base target) = repeat [46; 46] (length bp - n) ++ skipn n tp.
+Proof.
+  intros Ht Hb tp bp Hnd. exists (common_prefix_len tp bp).
+  destruct (common_prefix_spec tp bp) as (Hn1 & Hn2 & Hpre).
+  repeat split; try assumption; [apply common_prefix_maximal|].
+  unfold make_relative_path in *. fold tp bp in Hnd |- *.
+  set (n := common_prefix_len tp bp) in *.
+  destruct (is_nil (repeat [46; 46] (length bp - n) ++ skipn n tp)) eqn:Enil; [contradiction Hnd; reflexivity|].
+  apply components_join. apply Forall_app. split.
+  - apply Forall_forall. intros c Hc. apply repeat_spec in Hc. subst. split; [discriminate|repeat constructor].
+  - unfold tp in *. rewrite <- (firstn_skipn n (components target)) in Ht. apply Forall_app in Ht. destruct Ht as [_ Ht].
+    eapply Forall_impl; [|exact Ht]. intros c (H1 & H2 & _). split; assumption.
+Qed.
+Print Assumptions C19_shortest.
